@@ -3,6 +3,7 @@ package main
 // Lock-step execution of one case on the implementation and on the Lean model.
 
 import (
+	"unicode/utf8"
 	"encoding/hex"
 	"encoding/json"
 	"fmt"
@@ -146,6 +147,9 @@ func diffObs(io obsBlock, mo modelObs) []string {
 	cmp("V", io.V)
 	cmp("E", io.E)
 	cmp("W", io.W)
+	if _, ok := mo.lines["L"]; ok {
+		cmp("L", io.L)
+	}
 	rowDiff := map[string]bool{}
 	for k, v := range io.rows {
 		if mv, ok := mo.rows[k]; !ok || mv != v {
@@ -178,16 +182,19 @@ func describeDiff(io obsBlock, mo modelObs, projs []string) string {
 		case "R":
 			for k, v := range io.rows {
 				if mv, ok := mo.rows[k]; !ok || mv != v {
+					if !ok {
+						mv = mo.prev[k] // the model left the row as it was
+					}
 					fmt.Fprintf(&sb, "row %s impl[%s] model[%s]; ", k, v, mv)
 				}
 			}
 			for k, mv := range mo.rows {
 				if _, ok := io.rows[k]; !ok {
-					fmt.Fprintf(&sb, "row %s impl[unchanged] model[%s]; ", k, mv)
+					fmt.Fprintf(&sb, "row %s impl[%s] model[%s]; ", k, io.all[k], mv) // the implementation left the row as it was
 				}
 			}
 		default:
-			got := map[string]string{"G": io.G, "M": io.M, "A": io.A, "V": io.V, "E": io.E, "W": io.W}[p]
+			got := map[string]string{"G": io.G, "M": io.M, "A": io.A, "V": io.V, "E": io.E, "W": io.W, "L": io.L}[p]
 			fmt.Fprintf(&sb, "impl[%s] model[%s]; ", got, mo.lines[p])
 		}
 	}
@@ -374,6 +381,34 @@ func runCase(c *Case, d *driver, opts runOpts) (res caseResult) {
 						res.Cut = true
 						break
 					}
+					if gstate.firstMerge != "" {
+						// does the fragment change the cell width of the character it joins?
+						act := 0
+						if prevSnap.OnAlt {
+							act = 1
+						}
+						ps := &prevSnap.Screens[act]
+						if ps.CX > 0 && ps.CY < len(ps.Rows) {
+							cs := cellsOfVerif(ps.Rows[ps.CY].Cells)
+							k := ps.CX - 1
+							if k >= len(cs) {
+								k = len(cs) - 1
+							}
+							for k > 0 && cs[k].cont {
+								k--
+							}
+							if k >= 0 && k < len(cs) && !cs[k].cont {
+								if cl := graphemeClusters(cs[k].text + gstate.firstMerge); len(cl) == 1 && cl[0].width != cs[k].width && cl[0].width > 0 {
+									for _, pr := range []string{"C02", "C03", "C10"} {
+										addF(finding{Step: step, Kind: "monitor", Prop: pr, Clause: "merge-changes-width", Tags: "tm",
+											Detail: fmt.Sprintf("grapheme mode: the fragment %q arrives in a later run than its base %q; joined they measure %d cell(s) but the base was stored with %d", gstate.firstMerge, cs[k].text, cl[0].width, cs[k].width)})
+									}
+									res.Cut = true
+									break
+								}
+							}
+						}
+					}
 					if gstate.forcedOdd {
 						// known finding: the cell now holds two clusters; the case ends here
 						for _, pr := range []string{"C02", "C03"} {
@@ -400,7 +435,7 @@ func runCase(c *Case, d *driver, opts runOpts) (res caseResult) {
 		res.Replies = append([]byte(nil), im.be.written...)
 		for _, e := range im.fe.events {
 			switch e.kind {
-			case "b", "s", "f", "i", "t":
+			case "b", "s", "f", "i", "t", "l":
 				res.Events = append(res.Events, e.s)
 			}
 		}
@@ -493,6 +528,7 @@ type graphemeMergeState struct {
 	forceNext  bool // the previous cluster was a lone zero-width joiner
 	forcedOdd  bool // a cluster that cannot join (not pictographic) was glued on after a lone ZWJ
 	formatChar bool // a zero-width cluster that is not an extender occurred
+	firstMerge string // the run starts with a merge fragment: its text (joins a cell written earlier)
 }
 
 // graphemeRunTokens tokenises one printable run into extended grapheme clusters and classifies
@@ -501,7 +537,8 @@ type graphemeMergeState struct {
 // ZWJ the next cluster joins as well.
 func graphemeRunTokens(run []byte, st *graphemeMergeState) string {
 	var parts []string
-	for _, cl := range graphemeClusters(string(run)) {
+	st.firstMerge = ""
+	for ci, cl := range graphemeClusters(string(run)) {
 		merge := st.forceNext
 		st.forceNext = false
 		only := func(pred func(rune) bool) bool {
@@ -530,7 +567,19 @@ func graphemeRunTokens(run []byte, st *graphemeMergeState) string {
 			// glued to the previous cell only because a lone ZWJ came before it
 			st.forcedOdd = true
 		}
-		parts = append(parts, fmt.Sprintf("%x:%d:%d", cl.text, w, b2i(merge)))
+		if ci == 0 && merge {
+			st.firstMerge = cl.text
+		}
+		// what the buffers store: invalid UTF-8 bytes become U+FFFD, one per byte
+		stored := cl.text
+		if !utf8.ValidString(stored) {
+			var sb strings.Builder
+			for _, r := range stored { // ranging yields U+FFFD for every invalid byte
+				sb.WriteRune(r)
+			}
+			stored = sb.String()
+		}
+		parts = append(parts, fmt.Sprintf("%x:%d:%d:%x", cl.text, w, b2i(merge), stored))
 	}
 	return strings.Join(parts, ",")
 }
